@@ -141,6 +141,15 @@ def extract(unit, ex):
         s, e = R.find_type(toks, m, ex["name"])
         frag = [t.copy() for t in toks[s:e]]
         info["anchor"] = "type:" + ex["name"]
+        if ex.get("structural"):
+            # `==` on a field-less enum in exec code: Verus wants the Structural marker next to PartialEq/Eq
+            for k in range(len(frag)):
+                if frag[k].s == "derive":
+                    close = k + 1
+                    while frag[close].s != ")": close += 1
+                    frag[close:close] = T(", Structural")
+                    info["rules"]["R3.structural"] = 1
+                    break
         if ex.get("drop_derive"):
             # remove the named traits from the (already filtered) derive list
             k = 0
